@@ -270,6 +270,9 @@ mod verif_kani_slicer {
             assert!(!set.is_allowed(t)); // nothing at or above the vocabulary size
         }
         assert!(set.len() == VOCAB);
+        // no drop glue: recursive drop of Vec<TokenizerSlice> is unwound blindly by CBMC
+        core::mem::forget(comp);
+        core::mem::forget(set);
     }
 
     fn any_rx(contain: &[(usize, usize)]) -> [u8; NRX] {
@@ -280,6 +283,12 @@ mod verif_kani_slicer {
         rx
     }
 
+    #[kani::proof]
+    #[kani::unwind(10)]
+    fn slicer_apply_one_child() {
+        let rx = any_rx(&[]);
+        run_apply(rx, mk(0, 0xff, vec![mk(1, rx[1], vec![])]));
+    }
     #[kani::proof]
     #[kani::unwind(10)]
     fn slicer_apply_two_siblings() {
